@@ -104,6 +104,8 @@ TYPES = {
     'CreatorStats': ('block', 'CreatorStats'),
     'McStateExtra': ('block', 'McStateExtra'),
     'BlockExtra': ('block', 'BlockExtra'),
+    'McBlockExtra': ('block', 'McBlockExtra'),
+    'ConfigParams': ('block', 'ConfigParams'),
     'ShardStateUnsplit': ('block', 'ShardStateUnsplit'),
     'ValidatorInfo': ('block', 'ValidatorInfo'),
     'BlockCreateStats': ('block', 'BlockCreateStats'),
@@ -294,7 +296,11 @@ class Cmp:
                         self.cmp(f'{path}.extras[{i}]', a, b)
                 return
             if isinstance(l, tuple) and l and l[0] == 'cell':
-                return      # kept raw (pruned or special root)
+                if not s['dict']:
+                    self.bad(path, 'library holds a root cell for an EMPTY augmented dictionary')
+                return      # kept raw (pruned or special root, or a field the library does not parse: McBlockExtra.shard_fees)
+            if l is None and not s['dict']:
+                return      # an empty HashmapAugE kept as "no root"
             self.bad(path, f'library {show(l)} vs an augmented dictionary with {len(s["dict"])} entries')
             return
         if isinstance(s, dict) and '@c' in s:
@@ -432,47 +438,133 @@ def hexbits(s):
 # ------------------------------------------------------------------------------------------ generation
 class PolChooser(RG.Chooser):
     """dense polarity: structural choice points (constructor, Maybe/Either, dictionary size, one-bit flags) are enumerated in reverse order,
-    so the default path takes the LAST alternative (just, right, biggest dictionary, last constructor)"""
-    def __init__(self, plan, dense):
-        super().__init__(plan)
+    so the default path takes the LAST alternative (just, right, biggest dictionary, last constructor).
+    lean_from = L: every choice point with index > L that the plan does not fix takes the LEAN alternative (empty dictionary where the type
+    allows it, first alternative otherwise) whatever the polarity - used to make a value fit a cell when the polarity default does not."""
+    def __init__(self, plan, dense, lean_from=None, max_dict=3):
+        super().__init__({i: a for i, a in plan.items() if isinstance(i, int)})
         self.dense = dense
+        self.lean_from = plan.get('L', lean_from)
+        # index of the smallest dictionary among the size alternatives, by their number: max_dict 3: HashmapE [1,0,2,3], Hashmap [1,2,3],
+        # depth-limited HashmapE [1,0]; max_dict 2: HashmapE [1,0,2], Hashmap [1,2] (a depth-limited HashmapE [1,0] also has 2: its
+        # lean choice is then 1 entry, which is still small)
+        self.lean_dict = {4: 1, 3: 0, 2: 1} if max_dict >= 3 else {3: 1, 2: 0}
 
     def choose(self, label, n):
-        a = super().choose(label, n)
+        i = len(self.points)
         last = label.rsplit('/', 1)[-1]
+        if self.lean_from is not None and i > self.lean_from and i not in self.plan:
+            self.points.append((label, n, 0))
+            return self.lean_dict.get(n, 0) if last == 'dictsize' else 0
+        a = super().choose(label, n)
         if self.dense and (':' in last or last in ('dictsize', 'cell', 'any') or n == 2):      # n == 2: one-bit fields and other binary choices
             return n - 1 - a
         return a
 
 
-def explore(gen_one, k, dense, forced):
-    """RG.explore with a polarity and a forced first choice (root constructor)"""
-    def rec(plan, start, left):
-        ch = PolChooser(plan, dense)
+GEN_ERRORS = (RG.Invalid, RG.Overflow, RC.RefCellError)
+
+
+def _attempt(gen_one, plan, dense, md=3):
+    """generate the value of `plan`; when it does not fit a cell, once more with everything after the last planned choice lean.
+    -> (plan actually used, chooser, result or exception)"""
+    ch = PolChooser(plan, dense, max_dict=md)
+    try:
+        return plan, ch, gen_one(ch)
+    except GEN_ERRORS as e:
+        first = (ch, e)
+    if not isinstance(first[1], RG.Overflow):
+        return plan, first[0], first[1]
+    imax = max([i for i in plan if isinstance(i, int)], default=-1)
+    L0 = plan.get('L')
+    if L0 is not None and L0 <= imax:
+        return plan, first[0], first[1]
+    p2 = dict(plan)
+    p2['L'] = imax
+    ch = PolChooser(p2, dense, max_dict=md)
+    try:
+        return p2, ch, gen_one(ch)
+    except GEN_ERRORS as e:
+        return plan, first[0], first[1]
+
+
+def _dense_base(gen_one, base, dense, md=3):
+    """the base value of an exploration: the polarity default if it fits, else the longest polarity-default PREFIX followed by a lean suffix"""
+    plan, ch, res = _attempt(gen_one, base, dense, md)
+    if not isinstance(res, Exception) and 'L' not in plan:
+        return plan, ch, res
+    ch0 = PolChooser(base, dense, max_dict=md)
+    try:
+        gen_one(ch0)
+    except GEN_ERRORS:
+        pass
+    for L in range(len(ch0.points) - 1, max([i for i in base if isinstance(i, int)], default=-1), -1):
+        p2 = dict(base)
+        p2['L'] = L
+        ch = PolChooser(p2, dense, max_dict=md)
         try:
-            res = gen_one(ch)
-        except (RG.Invalid, RG.Overflow, RC.RefCellError) as e:
-            res = e
+            return p2, ch, gen_one(ch)
+        except GEN_ERRORS:
+            continue
+    return plan, ch, res
+
+
+def is_structural(label, n):
+    last = label.rsplit('/', 1)[-1]
+    return ':' in last or last in ('dictsize', 'cell', 'any') or n == 2
+
+
+# second-level departures (thorough tier) per type: 'all' = every pair of choice points; 'struct-first' = the first of the two is a structural
+# point (constructor, Maybe / Either / conditional presence, dictionary size, one-bit flag), the second any; 'struct-both' = both structural
+# (container types whose content types are explored as roots themselves)
+PAIR_RULE = {'BlockExtra': 'struct-both', 'AccountBlock': 'struct-both', 'ShardStateUnsplit': 'struct-both', 'McBlockExtra': 'struct-first', 'McStateExtra': 'struct-first',
+             'InMsg': 'struct-first', 'OutMsg': 'struct-first', 'Transaction': 'struct-first', 'TransactionDescr': 'struct-first', 'MsgEnvelope': 'struct-first',
+             'ValueFlow': 'struct-first', 'ShardDescr': 'struct-first', 'BlockCreateStats': 'struct-first'}
+
+
+def explore(gen_one, k, dense, forced, md=3, part=0, parts=1, pair_rule='all'):
+    """deviation-bounded enumeration with a polarity and a forced first choice (root constructor): the base, then every value
+    with <= k departures from it; a departure that makes the value overflow a cell is retried with a lean suffix (see _attempt)"""
+    def rec(plan, start, left, is_base=False):
+        plan, ch, res = _dense_base(gen_one, plan, dense, md) if is_base else _attempt(gen_one, plan, dense, md)
         yield plan, ch, res
         if left == 0:
             return
         for i in range(start, len(ch.points)):
+            if is_base and i % parts != part:          # the first-level departures are dealt out to the parts of a split shard
+                continue
             label, n, a = ch.points[i]
+            if left >= 2 and pair_rule != 'all' and not is_structural(label, n):
+                # a value departure that will not be combined with another one: evaluate it alone (below), do not descend
+                for alt in range(1, n):
+                    p = {j: v for j, v in plan.items() if isinstance(j, int) and j < i}
+                    if 'L' in plan:
+                        p['L'] = plan['L']
+                    p[i] = alt
+                    yield from rec(p, i + 1, 0)
+                continue
+            if not is_base and pair_rule == 'struct-both' and not is_structural(label, n):
+                continue
             for alt in range(1, n):
-                p = {j: v for j, v in plan.items() if j < i}
+                p = {j: v for j, v in plan.items() if isinstance(j, int) and j < i}
+                if 'L' in plan:
+                    p['L'] = plan['L']
                 p[i] = alt
                 yield from rec(p, i + 1, left - 1)
     base = dict(forced)
-    yield from rec(base, len(base), k)
+    yield from rec(base, len(base), k, is_base=True)
 
 
 def root_ctors(S, T):
     return [d for d in S.types[T] if d['tag'] is not None]
 
 
-def gen_case(S, T, ch, seed):
+MAX_DICT = {'quick': 2, 'thorough': 3}      # entries of the biggest generated dictionary (label kinds / deeper tries are C10's subject)
+
+
+def gen_case(S, T, ch, seed, max_dict=3):
     b = RG.B()
-    g = RG.Gen(S, seed, skip_ctors=('addr_var',))
+    g = RG.Gen(S, seed, skip_ctors=('addr_var',), max_dict=max_dict)
     v = g.gen(T, b, {}, ch, T)
     return v, b.cell()
 
@@ -516,18 +608,25 @@ def ctor_of(v):
     return v.get('@c') if isinstance(v, dict) else '?'
 
 
-def shard_type(rec, T, ri, dense):
+def shard_type(rec, T, ri, dense, part=0, parts=1):
     S = schema()
     k = 1 if rec.tier == 'quick' else 2
+    md = MAX_DICT[rec.tier]
     rec.covered('type:' + T)
     roots = root_ctors(S, T)
     forced = {}
     if len(roots) > 1:
         forced = {0: (len(roots) - 1 - ri) if dense else ri}
     seen = set()
-    for plan, ch, res in explore(lambda ch: gen_case(S, T, ch, rec.seed), k, dense, forced):
+    for plan, ch, res in explore(lambda ch: gen_case(S, T, ch, rec.seed, md), k, dense, forced, md, part, parts, PAIR_RULE.get(T, 'all')):
         if isinstance(res, Exception):
+            # the departure cannot be encoded (e.g. a maximal amount next to other maximal fields of the same cell), even with a lean suffix
+            rec.sub['plans:infeasible'] += 1
+            rec.outcome('infeasible value')
             continue
+        rec.sub['plans:feasible'] += 1
+        if 'L' in plan:
+            rec.sub['plans:feasible-with-lean-suffix'] += 1
         v, cell = res
         h = cell.hash()
         if h in seen:
@@ -538,22 +637,23 @@ def shard_type(rec, T, ri, dense):
         back = S.decode(T, s2)
         assert s2.bits_left() == 0 and s2.refs_left() == 0, ('generator/decoder disagree', T, plan)
         rec.covered('ctor:' + str(ctor_of(back)))
-        rec.state((T, ri, dense, tuple(sorted(plan.items()))))
+        pk = tuple(sorted((str(i), a) for i, a in plan.items()))
+        rec.state((T, ri, dense, pk))
         if len(plan) > len(forced):
-            rec.nontriv((T, ri, dense, tuple(sorted(plan.items()))))
+            rec.nontriv((T, ri, dense, pk))
         devs = [(p[0], p[2]) for i, p in enumerate(ch.points) if p[2] and i not in forced]
-        args = {'T': T, 'dense': dense, 'plan': {str(i): a for i, a in plan.items()}}
+        args = {'T': T, 'dense': dense, 'plan': {str(i): a for i, a in plan.items()}, 'md': md}
         check_case(rec, T, cell, back, args, f'{T} root={ctor_of(back)} {"dense" if dense else "sparse"} deviations {devs}')
     if T == 'Transaction' and not dense:
         rec.sample({'type': T, 'root': 'transaction', 'deviations': [['Transaction.transaction/description:TransactionDescr', 3]], 'checked': 'every field of the parsed object vs the schema value; slice consumed'})
 
 
-def case_value(rec, T, dense, plan):
+def case_value(rec, T, dense, plan, md=3):
     S = schema()
-    ch = PolChooser({int(i): a for i, a in plan.items()}, dense)
-    v, cell = gen_case(S, T, ch, rec.seed)
+    ch = PolChooser({(i if i == 'L' else int(i)): a for i, a in plan.items()}, dense, max_dict=md)
+    v, cell = gen_case(S, T, ch, rec.seed, md)
     back = S.decode(T, RTLB.Slice(cell))
-    check_case(rec, T, cell, back, {'T': T, 'dense': dense, 'plan': plan}, f'{T} root={ctor_of(back)} plan {plan}')
+    check_case(rec, T, cell, back, {'T': T, 'dense': dense, 'plan': plan, 'md': md}, f'{T} root={ctor_of(back)} plan {plan}')
 
 
 def shard_mainnet(rec):
@@ -595,8 +695,16 @@ def shards(tier, seed):
     S = schema()
     out = [{'fn': 'shard_mainnet', 'args': {}}]
     heavy = ('InMsg', 'OutMsg', 'Transaction', 'ValueFlow', 'TransactionDescr', 'MsgEnvelope')
+    # shards whose values are big (dense polarity of the container types) are split: the first-level departures are dealt out to the parts
+    split = {'BlockExtra': 32, 'AccountBlock': 8, 'ShardStateUnsplit': 6, 'Transaction': 6, 'TransactionDescr': 4, 'InMsg': 4, 'OutMsg': 4, 'McBlockExtra': 2,
+             'McStateExtra': 2, 'MsgEnvelope': 2}
+    mult = 1 if tier == 'quick' else 6
     for T in TYPES:
         for ri in range(len(root_ctors(S, T))):
             for dense in (False, True):
-                out.append({'fn': 'shard_type', 'args': {'T': T, 'ri': ri, 'dense': dense}, 'prio': 3 if T in heavy else 1})
+                parts = split.get(T, 1) * mult if (dense or tier == 'thorough') else (4 if T == 'BlockExtra' else 1)
+                if T not in split:
+                    parts = 1
+                for p in range(parts):
+                    out.append({'fn': 'shard_type', 'args': {'T': T, 'ri': ri, 'dense': dense, 'part': p, 'parts': parts}, 'prio': (4 if T == 'BlockExtra' else 3) if T in heavy or T in split else 1})
     return out
